@@ -1241,6 +1241,10 @@ func (c Code) Eval(scope *Scope, w io.Writer) (result Object) {
 	for _, obj := range c {
 		if obj != nil {
 			result = obj.Eval(scope, 0)
+			if _, ok := result.(*ReturnResult); ok {
+				// A return-from to a block around the load.
+				return
+			}
 			if w != nil {
 				_, _ = fmt.Fprintf(w, ";;  %s\n", ObjectString(result))
 			}
